@@ -812,6 +812,7 @@ func checkC19(r *Report) {
 	nM := mapOrderRule(r, p, "C19.g/MAP-ORDER", cfs)
 	signSymmetryRule(r, p, "C19.g/SIGN-SYMMETRIC", cfs)
 	loopReturnRule(r, p, "C19.g/LOOP-NONZERO", cfs)
+	quoteCharsRule(r, p, "C19.f/QUOTE-CHARS", "resolve/internal/versiontest")
 	nCut := cutsetValidRule(r, loadResolve("", true), "C19.f/CUTSET-UTF8", "resolve/internal/versiontest", "resolve/internal/deptest", "resolve/schema", "resolve/dep", "resolve/version", "resolve", "resolve/maven", "resolve/npm", "resolve/pypi", "semver", "pypi", "maven")
 	r.floor("C19.f/CUTSET-UTF8", "constant cutsets of strings.Trim*/IndexAny/ContainsAny in the parsers (the schema tokenizers have none today; the floor is held by the other parsers)", nCut, 5)
 	nEq := equalConjunctiveRule(r, loadResolve("", true), "C19.g/EQUAL-CONJUNCTIVE", "resolve", "resolve/dep", "resolve/version", "resolve/internal/attr")
